@@ -381,11 +381,14 @@ def fractional_weights_probe(rep, n):
                 item = {"name": f"i{step}", "weight": float(wt), "value": 1}
                 if r.random() < 0.3:
                     shop = Shop([dict(item)])
-                    gold0 = w.gold
+                    gold0, n0 = w.gold, len(inv.items)
                     ok = shop.buy(item["name"], w, inv)
                     via = "Shop.buy"
-                    if not ok and w.gold != gold0:
-                        rep.violations.append({"cls": None, "family": "c20-fractional", "what": f"a refused purchase changed the gold ({gold0} -> {w.gold})", "log": log})
+                    paid, arrived = w.gold != gold0, len(inv.items) == n0 + 1
+                    if not (bool(ok) == paid == arrived):
+                        rep.violations.append({"cls": None, "family": "c20-fractional", "log": log + [[via, str(wt), bool(ok)]],
+                                               "what": f"buy of an item weighing {wt} (limit {limit}, carried {held}) answered {bool(ok)}: gold {gold0} -> {w.gold}, the item {'arrived' if arrived else 'did not arrive'} (an exchange is all or nothing)"})
+                        break
                 else:
                     ok = inv.add(dict(item))
                     via = "add"
@@ -402,6 +405,41 @@ def fractional_weights_probe(rep, n):
                     break
         done += 1
     rep.coverage.setdefault("families", {})["c20-fractional"] = {"cases": done}
+    rep.coverage["evaluations"] = rep.coverage.get("evaluations", 0) + done
+
+
+def shop_consistency_probe(rep, n):
+    """Shop.buy and Inventory.add agree, whatever the weights (decimal fractions that are NOT exact in binary, weightless items,
+    a pack whose limit the story lowered below what it carries): gold is taken iff the item arrived iff buy answered True, and
+    buy answers what add answers for the same item on an inventory in the same state"""
+    from bardic.stdlib.economy import Wallet, Shop
+    from bardic.stdlib.inventory import Inventory
+    done = 0
+    for idx in range(n):
+        r = rng_for(rep.seed, "shop-consistency", idx)
+        with quiet():
+            inv = Inventory(r.choice([1.7, 2.9, 0.3, 1.0, 5]))
+            w = Wallet(500)
+            log = []
+            for step in range(r.randint(2, 10)):
+                if r.random() < 0.2:
+                    inv.max_weight = r.choice([0, 0.5, 1.7, 2.9])
+                    log.append(["limit", inv.max_weight])
+                item = {"name": f"i{step}", "weight": r.choice([0, 0.1, 0.2, 0.6, 0.7, 1.1, 2.2, 0.3]), "value": r.randint(1, 9)}
+                twin = copy.deepcopy(inv)
+                expect = twin.add(dict(item))
+                shop = Shop([dict(item)])
+                gold0, n0 = w.gold, len(inv.items)
+                ok = shop.buy(item["name"], w, inv)
+                paid, arrived = w.gold != gold0, len(inv.items) == n0 + 1
+                log.append(["buy", item["weight"], bool(ok)])
+                if not (bool(ok) == paid == arrived == bool(expect)):
+                    rep.violations.append({"cls": None, "family": "c20-shop-consistency", "log": log,
+                                           "what": (f"inventory carrying {twin.current_weight - (item['weight'] if expect else 0)} of {inv.max_weight}: add of an item weighing {item['weight']} answers {bool(expect)}; "
+                                                    f"buy answered {bool(ok)}, gold {gold0} -> {w.gold}, the item {'arrived' if arrived else 'did not arrive'}")})
+                    break
+        done += 1
+    rep.coverage.setdefault("families", {})["c20-shop-consistency"] = {"cases": done}
     rep.coverage["evaluations"] = rep.coverage.get("evaluations", 0) + done
 
 
